@@ -217,6 +217,9 @@ Gen/Grammar.vos Gen/Grammar.vok Gen/Grammar.required_vos: Gen/Grammar.v Parser/M
 Gen/HostFns.vo Gen/HostFns.glob Gen/HostFns.v.beautified Gen/HostFns.required_vo: Gen/HostFns.v Cond/HostTypes.vo
 Gen/HostFns.vio: Gen/HostFns.v Cond/HostTypes.vio
 Gen/HostFns.vos Gen/HostFns.vok Gen/HostFns.required_vos: Gen/HostFns.v Cond/HostTypes.vos
+Gen/ModCaps.vo Gen/ModCaps.glob Gen/ModCaps.v.beautified Gen/ModCaps.required_vo: Gen/ModCaps.v 
+Gen/ModCaps.vio: Gen/ModCaps.v 
+Gen/ModCaps.vos Gen/ModCaps.vok Gen/ModCaps.required_vos: Gen/ModCaps.v 
 Gen/PatConsts.vo Gen/PatConsts.glob Gen/PatConsts.v.beautified Gen/PatConsts.required_vo: Gen/PatConsts.v 
 Gen/PatConsts.vio: Gen/PatConsts.v 
 Gen/PatConsts.vos Gen/PatConsts.vok Gen/PatConsts.required_vos: Gen/PatConsts.v 
@@ -235,6 +238,12 @@ Gen/TrackingGen.vos Gen/TrackingGen.vok Gen/TrackingGen.required_vos: Gen/Tracki
 Gen/WalkGen.vo Gen/WalkGen.glob Gen/WalkGen.v.beautified Gen/WalkGen.required_vo: Gen/WalkGen.v 
 Gen/WalkGen.vio: Gen/WalkGen.v 
 Gen/WalkGen.vos Gen/WalkGen.vok Gen/WalkGen.required_vos: Gen/WalkGen.v 
+Modules/Caps.vo Modules/Caps.glob Modules/Caps.v.beautified Modules/Caps.required_vo: Modules/Caps.v Gen/ModCaps.vo
+Modules/Caps.vio: Modules/Caps.v Gen/ModCaps.vio
+Modules/Caps.vos Modules/Caps.vok Modules/Caps.required_vos: Modules/Caps.v Gen/ModCaps.vos
+Modules/CapsProofs.vo Modules/CapsProofs.glob Modules/CapsProofs.v.beautified Modules/CapsProofs.required_vo: Modules/CapsProofs.v Gen/ModCaps.vo Modules/Caps.vo
+Modules/CapsProofs.vio: Modules/CapsProofs.v Gen/ModCaps.vio Modules/Caps.vio
+Modules/CapsProofs.vos Modules/CapsProofs.vok Modules/CapsProofs.required_vos: Modules/CapsProofs.v Gen/ModCaps.vos Modules/Caps.vos
 Modules/Rva.vo Modules/Rva.glob Modules/Rva.v.beautified Modules/Rva.required_vo: Modules/Rva.v 
 Modules/Rva.vio: Modules/Rva.v 
 Modules/Rva.vos Modules/Rva.vok Modules/Rva.required_vos: Modules/Rva.v 
@@ -280,9 +289,12 @@ Parser/Position.vos Parser/Position.vok Parser/Position.required_vos: Parser/Pos
 Parser/PositionProofs.vo Parser/PositionProofs.glob Parser/PositionProofs.v.beautified Parser/PositionProofs.required_vo: Parser/PositionProofs.v Parser/Position.vo
 Parser/PositionProofs.vio: Parser/PositionProofs.v Parser/Position.vio
 Parser/PositionProofs.vos Parser/PositionProofs.vok Parser/PositionProofs.required_vos: Parser/PositionProofs.v Parser/Position.vos
-Pat/Base64.vo Pat/Base64.glob Pat/Base64.v.beautified Pat/Base64.required_vo: Pat/Base64.v Pat/Syntax.vo Pat/Sem.vo Pat/Matcher.vo Pat/Modifiers.vo Pat/ModifiersProofs.vo
-Pat/Base64.vio: Pat/Base64.v Pat/Syntax.vio Pat/Sem.vio Pat/Matcher.vio Pat/Modifiers.vio Pat/ModifiersProofs.vio
-Pat/Base64.vos Pat/Base64.vok Pat/Base64.required_vos: Pat/Base64.v Pat/Syntax.vos Pat/Sem.vos Pat/Matcher.vos Pat/Modifiers.vos Pat/ModifiersProofs.vos
+Pat/Base64.vo Pat/Base64.glob Pat/Base64.v.beautified Pat/Base64.required_vo: Pat/Base64.v Pat/Syntax.vo Pat/Modifiers.vo
+Pat/Base64.vio: Pat/Base64.v Pat/Syntax.vio Pat/Modifiers.vio
+Pat/Base64.vos Pat/Base64.vok Pat/Base64.required_vos: Pat/Base64.v Pat/Syntax.vos Pat/Modifiers.vos
+Pat/Base64Proofs.vo Pat/Base64Proofs.glob Pat/Base64Proofs.v.beautified Pat/Base64Proofs.required_vo: Pat/Base64Proofs.v Pat/Syntax.vo Pat/Sem.vo Pat/Matcher.vo Pat/Modifiers.vo Pat/ModifiersProofs.vo Pat/Base64.vo
+Pat/Base64Proofs.vio: Pat/Base64Proofs.v Pat/Syntax.vio Pat/Sem.vio Pat/Matcher.vio Pat/Modifiers.vio Pat/ModifiersProofs.vio Pat/Base64.vio
+Pat/Base64Proofs.vos Pat/Base64Proofs.vok Pat/Base64Proofs.required_vos: Pat/Base64Proofs.v Pat/Syntax.vos Pat/Sem.vos Pat/Matcher.vos Pat/Modifiers.vos Pat/ModifiersProofs.vos Pat/Base64.vos
 Pat/Blocks.vo Pat/Blocks.glob Pat/Blocks.v.beautified Pat/Blocks.required_vo: Pat/Blocks.v 
 Pat/Blocks.vio: Pat/Blocks.v 
 Pat/Blocks.vos Pat/Blocks.vok Pat/Blocks.required_vos: Pat/Blocks.v 
@@ -292,12 +304,18 @@ Pat/BlocksCheck.vos Pat/BlocksCheck.vok Pat/BlocksCheck.required_vos: Pat/Blocks
 Pat/BlocksProofs.vo Pat/BlocksProofs.glob Pat/BlocksProofs.v.beautified Pat/BlocksProofs.required_vo: Pat/BlocksProofs.v Pat/Blocks.vo
 Pat/BlocksProofs.vio: Pat/BlocksProofs.v Pat/Blocks.vio
 Pat/BlocksProofs.vos Pat/BlocksProofs.vok Pat/BlocksProofs.required_vos: Pat/BlocksProofs.v Pat/Blocks.vos
-Pat/C01Check.vo Pat/C01Check.glob Pat/C01Check.v.beautified Pat/C01Check.required_vo: Pat/C01Check.v Gen/PatConsts.vo Pat/Syntax.vo Pat/Sem.vo Pat/Matcher.vo Pat/Modifiers.vo Pat/MatchList.vo
-Pat/C01Check.vio: Pat/C01Check.v Gen/PatConsts.vio Pat/Syntax.vio Pat/Sem.vio Pat/Matcher.vio Pat/Modifiers.vio Pat/MatchList.vio
-Pat/C01Check.vos Pat/C01Check.vok Pat/C01Check.required_vos: Pat/C01Check.v Gen/PatConsts.vos Pat/Syntax.vos Pat/Sem.vos Pat/Matcher.vos Pat/Modifiers.vos Pat/MatchList.vos
+Pat/C01Check.vo Pat/C01Check.glob Pat/C01Check.v.beautified Pat/C01Check.required_vo: Pat/C01Check.v Gen/PatConsts.vo Pat/Syntax.vo Pat/Sem.vo Pat/Matcher.vo Pat/Modifiers.vo Pat/MatchList.vo Pat/Base64.vo
+Pat/C01Check.vio: Pat/C01Check.v Gen/PatConsts.vio Pat/Syntax.vio Pat/Sem.vio Pat/Matcher.vio Pat/Modifiers.vio Pat/MatchList.vio Pat/Base64.vio
+Pat/C01Check.vos Pat/C01Check.vok Pat/C01Check.required_vos: Pat/C01Check.v Gen/PatConsts.vos Pat/Syntax.vos Pat/Sem.vos Pat/Matcher.vos Pat/Modifiers.vos Pat/MatchList.vos Pat/Base64.vos
 Pat/C01CheckProofs.vo Pat/C01CheckProofs.glob Pat/C01CheckProofs.v.beautified Pat/C01CheckProofs.required_vo: Pat/C01CheckProofs.v Gen/PatConsts.vo Pat/Syntax.vo Pat/Sem.vo Pat/Matcher.vo Pat/MatcherProofs.vo Pat/Modifiers.vo Pat/ModifiersProofs.vo Pat/MatchList.vo Pat/C01Check.vo
 Pat/C01CheckProofs.vio: Pat/C01CheckProofs.v Gen/PatConsts.vio Pat/Syntax.vio Pat/Sem.vio Pat/Matcher.vio Pat/MatcherProofs.vio Pat/Modifiers.vio Pat/ModifiersProofs.vio Pat/MatchList.vio Pat/C01Check.vio
 Pat/C01CheckProofs.vos Pat/C01CheckProofs.vok Pat/C01CheckProofs.required_vos: Pat/C01CheckProofs.v Gen/PatConsts.vos Pat/Syntax.vos Pat/Sem.vos Pat/Matcher.vos Pat/MatcherProofs.vos Pat/Modifiers.vos Pat/ModifiersProofs.vos Pat/MatchList.vos Pat/C01Check.vos
+Pat/Chain.vo Pat/Chain.glob Pat/Chain.v.beautified Pat/Chain.required_vo: Pat/Chain.v Gen/PatConsts.vo Pat/Syntax.vo Pat/Sem.vo
+Pat/Chain.vio: Pat/Chain.v Gen/PatConsts.vio Pat/Syntax.vio Pat/Sem.vio
+Pat/Chain.vos Pat/Chain.vok Pat/Chain.required_vos: Pat/Chain.v Gen/PatConsts.vos Pat/Syntax.vos Pat/Sem.vos
+Pat/ChainProofs.vo Pat/ChainProofs.glob Pat/ChainProofs.v.beautified Pat/ChainProofs.required_vo: Pat/ChainProofs.v Gen/PatConsts.vo Pat/Syntax.vo Pat/Sem.vo Pat/Matcher.vo Pat/MatcherProofs.vo Pat/Chain.vo
+Pat/ChainProofs.vio: Pat/ChainProofs.v Gen/PatConsts.vio Pat/Syntax.vio Pat/Sem.vio Pat/Matcher.vio Pat/MatcherProofs.vio Pat/Chain.vio
+Pat/ChainProofs.vos Pat/ChainProofs.vok Pat/ChainProofs.required_vos: Pat/ChainProofs.v Gen/PatConsts.vos Pat/Syntax.vos Pat/Sem.vos Pat/Matcher.vos Pat/MatcherProofs.vos Pat/Chain.vos
 Pat/MatchList.vo Pat/MatchList.glob Pat/MatchList.v.beautified Pat/MatchList.required_vo: Pat/MatchList.v Gen/PatConsts.vo
 Pat/MatchList.vio: Pat/MatchList.v Gen/PatConsts.vio
 Pat/MatchList.vos Pat/MatchList.vok Pat/MatchList.required_vos: Pat/MatchList.v Gen/PatConsts.vos
